@@ -399,6 +399,10 @@ def scrape_pst():
     n = len(re.findall(r"\.into_inner\(\)", t))
     # sites that must stay raw: the helper itself, attributes of function_keyword, FunctionAttribute,
     # Documentation, include, the members of an interface, the top-level loop
+    facts["pst_comment_keeps_doc"] = bool(re.search(r"Rule::COMMENT => \{[^}]*if let Ok\(doc\) = Documentation::try_from\(rule\) \{\s*comment = Some\(doc\);", t, re.S))
+    overwrites = bool(re.search(r"Rule::COMMENT => \{\s*comment = Documentation::try_from\(rule\)\.ok\(\);", t))
+    if facts["pst_comment_keeps_doc"] == overwrites:
+        problems.append("pst.rs: how a COMMENT pair updates the pending documentation is not recognised")
     if helper and n == 7:
         facts["pst_skips_comments"] = True
     elif not helper and n == 18:
